@@ -152,6 +152,59 @@ pub fn run(ctx: &Ctx) -> Report {
     }
   }
   report.model_requests = model.requests;
+  // ---- on a real terminal, of any width: the hash shown is still all forty digits of the same hash
+  {
+    let strip = |b: &[u8]| -> String {
+      let s = String::from_utf8_lossy(b).into_owned();
+      let mut out = String::new();
+      let mut it = s.chars().peekable();
+      while let Some(c) = it.next() {
+        if c == '\u{1b}' {
+          // CSI ... final byte
+          if it.peek() == Some(&'[') {
+            it.next();
+            while let Some(&n) = it.peek() {
+              it.next();
+              if ('@'..='~').contains(&n) {
+                break;
+              }
+            }
+          }
+        } else {
+          out.push(c);
+        }
+      }
+      out
+    };
+    let mut rng = Rng::new(ctx.seed).fork(0xC04F);
+    let o = Opts::default();
+    let mut helper_missing = false;
+    let planned: Vec<(u32, Vec<u8>)> = match super::replay_cases(ctx) {
+      Some(rc) => rc.iter().filter_map(|v| Some((v.get("terminal_columns")?.as_u64()? as u32, unhex(v.get("torrent_hex")?.as_str()?)?))).collect(),
+      None => [30u32, 40, 48, 53, 54, 55, 80, 200].into_iter().map(|c| (c, accepted(&mut rng, &o).1)).collect(),
+    };
+    for (i, (cols, bytes)) in planned.into_iter().enumerate() {
+      let Some(span) = bencode::find_span(&bytes, b"info").map(|(a, b)| sha1hex(&bytes[a..b])) else { continue };
+      let sb = Sandbox::new(&ctx.work, "c04t");
+      sb.write("t.torrent", &bytes);
+      let Some(out) = crate::run::pty_run(cols, &sb.root, &ctx.imdl, &["torrent", "show", "--input", "t.torrent"]) else { helper_missing = true; break };
+      if out.code != Some(0) {
+        continue; // not accepted by the typed reader
+      }
+      let case = json!({"terminal_columns": cols, "torrent_hex": hex(&bytes)});
+      report.case(Some(fnv(case.to_string().as_bytes())));
+      report.hit("show:on-a-terminal");
+      let text = strip(&out.stdout);
+      let shown = text.lines().find_map(|l| l.split_once("Info Hash").map(|x| x.1.trim().to_string()));
+      if shown.as_deref() != Some(span.as_str()) {
+        report.fail("property", "infohash-differs-from-stored-span", case, format!("on a terminal {cols} columns wide `show` reports {shown:?}; SHA-1 of the stored info span is {span}"));
+      }
+      let _ = i;
+    }
+    if helper_missing {
+      report.hit("skipped:no-pty-helper");
+    }
+  }
   if ctx.replay.is_some() {
     return report;
   }
